@@ -1,6 +1,6 @@
 """C22 - a suppression that matches nothing changes nothing."""
 import os
-from .. import core, wl, run, mutate, pairs
+from .. import core, wl, run, mutate, pairs, progen
 
 PROP = "C22"
 LEVEL = "exploration"
@@ -10,8 +10,10 @@ TECHNIQUE = "metamorphic runtime oracle: abidiff with and without a generated su
 LEVEL_TEXT = ("program pairs with 1-4 mixed mutations are compared with and without '--suppr F'; every section of F is unsatisfiable for "
               "the two binaries by construction of the generator (names and symbol names built from a nonce that occurs in neither "
               "program, regular expressions anchored on that nonce, file / SONAME patterns that match neither input, type kinds restricted "
-              "by a non-matching name).  The report and the exit status must be byte-identical.")
-LEVEL_NOTE = "sections use documented properties only; every section carries at least one property that is unsatisfiable on its own, so the conjunction is unsatisfiable whatever the other properties are"
+              "by a non-matching name; or 'near misses' that name a real type, function or variable of the program together with one "
+              "property this entity contradicts: another type kind, the other kind of declaration, reference access in C, a symbol "
+              "version or return / variable type it does not have).  The report and the exit status must be byte-identical.")
+LEVEL_NOTE = "sections use documented properties only; every section carries at least one property that is unsatisfiable on its own (or, for near misses, contradicted by the one entity the section names), so the conjunction is unsatisfiable whatever the other properties are"
 ASSUMPTIONS = [LEVEL_NOTE, "identifiers of a generated program all contain its 4-hex-digit nonce; the suppression nonce is different"]
 
 
@@ -25,8 +27,46 @@ def rule(tier):
             "been suppressed); distinct by digest of sources + file")
 
 
-def gen_section(rng, nonce):
+def near_miss_section(rng, nonce, prog):
+    """A section that names a real type / function / variable of the program but carries one property that this very
+    entity contradicts (wrong kind of type, wrong kind of declaration, reference access in C, a version it does not have ...)."""
     z = "zz%sq" % nonce
+    unions = [t.name for t in prog.types if isinstance(t, progen.Record) and t.kind == "union" and t.name]
+    structs = [t.name for t in prog.types if isinstance(t, progen.Record) and t.kind == "struct" and t.name]
+    enums = [t.name for t in prog.types if isinstance(t, progen.Enum) and t.name]
+    typedefs = [t.name for t in prog.types if isinstance(t, progen.Typedef)]
+    fns = [f.name for f in prog.exported_functions() if not f.version]
+    vars_ = [v.name for v in prog.exported_variables() if not v.version]
+    c = []
+    for u in unions:
+        c += ["[suppress_type]\n  name = %s\n  type_kind = %s" % (u, k) for k in ("class", "struct", "enum", "typedef", "array")]
+        c += ["[suppress_type]\n  name_regexp = ^%s$\n  type_kind = class" % u]
+    for st in structs:
+        c += ["[suppress_type]\n  name = %s\n  type_kind = %s" % (st, k) for k in ("union", "enum", "typedef")]
+        if prog.lang == "c":
+            c += ["[suppress_type]\n  name = %s\n  accessed_through = reference" % st]
+    for e in enums:
+        c += ["[suppress_type]\n  name = %s\n  type_kind = %s" % (e, k) for k in ("class", "struct", "union", "typedef")]
+    for t in typedefs:
+        c += ["[suppress_type]\n  name = %s\n  type_kind = %s" % (t, k) for k in ("class", "union", "enum")]
+    for f in fns:
+        c += ["[suppress_variable]\n  name = %s" % f, "[suppress_variable]\n  symbol_name = %s" % f,
+              "[suppress_function]\n  name = %s\n  symbol_version = VERS_%s" % (f, z.upper()),
+              "[suppress_function]\n  name = %s\n  return_type_name = %s_t" % (f, z),
+              "[suppress_function]\n  symbol_name = %s\n  name = %s_f" % (f, z)]
+    for v in vars_:
+        c += ["[suppress_function]\n  name = %s" % v, "[suppress_function]\n  symbol_name = %s" % v,
+              "[suppress_variable]\n  name = %s\n  type_name = %s_t" % (v, z),
+              "[suppress_variable]\n  name = %s\n  symbol_version = VERS_%s" % (v, z.upper())]
+    return rng.choice(c) if c else None
+
+
+def gen_section(rng, nonce, prog=None):
+    z = "zz%sq" % nonce
+    if prog is not None and rng.random() < 0.4:
+        sec = near_miss_section(rng, nonce, prog)
+        if sec:
+            return sec
     kind = rng.choice(["suppress_type", "suppress_function", "suppress_variable", "suppress_file"])
     lines = ["[%s]" % kind]
     if kind == "suppress_type":
@@ -62,7 +102,7 @@ def case(ctx, i):
     nonce = "%04x" % rng.randrange(16 ** 4)
     while nonce == pr.p.nonce:
         nonce = "%04x" % rng.randrange(16 ** 4)
-    text = "\n\n".join(gen_section(rng, nonce) for _ in range(rng.randint(1, 6))) + "\n"
+    text = "\n\n".join(gen_section(rng, nonce, pr.p) for _ in range(rng.randint(1, 6))) + "\n"
     f = os.path.join(d, "none.suppr")
     open(f, "w").write(text)
     what = "+".join(e.kind for e in pr.expects) + " " + wl.describe_cfg(pr.cfg)
